@@ -1,6 +1,9 @@
 import OrsoVerif.Model.SchemaOps
 import OrsoVerif.Lemmas.SchemaOps
 import OrsoVerif.Lemmas.SchemaFns
+import OrsoVerif.Lemmas.SchemaHeap
+import OrsoVerif.Lemmas.SchemaBattery
+import OrsoVerif.Generated.SchemaFns
 /-!
 # C17 — Schema union and lookup are identity-based, ordered and non-mutating
 
@@ -15,6 +18,7 @@ by the correspondence (operands are snapshotted around every `+`, the sum's colu
 new list).
 -/
 set_option linter.unusedSectionVars false
+set_option linter.unusedSimpArgs false
 namespace C17
 open SchemaOps
 
@@ -89,6 +93,34 @@ theorem union_identities_mem (a b : Schema ι ν) (i : ι) :
       · exact Or.inl hi
       · obtain ⟨c, hc, rfl⟩ := List.mem_map.mp h
         exact Or.inr (hcov c hc hi)
+
+/-- **Duplicate identities inside one operand, exactly.**  How often an identity occurs in the sum: as often as
+in the left operand when the left operand has it (the left columns are copied whole, repeats included — the sum
+does *not* de-duplicate its left operand), otherwise once if the right operand has it (however often it repeats
+there), otherwise never. -/
+theorem union_identity_count (a b : Schema ι ν) (i : ι) :
+    (ids (union a b).columns).count i =
+      if i ∈ ids a.columns then (ids a.columns).count i else if i ∈ ids b.columns then 1 else 0 := by
+  obtain ⟨r, hr, hsub, hnd, hdis, hcov, _⟩ := union_right_part a b
+  rw [hr, ids_append, List.count_append]
+  by_cases hi : i ∈ ids a.columns
+  · have h0 : (ids r).count i = 0 := by
+      apply List.count_eq_zero.mpr
+      intro hm
+      obtain ⟨c, hc, rfl⟩ := List.mem_map.mp hm
+      exact hdis c hc hi
+    simp [hi, h0]
+  · have ha : (ids a.columns).count i = 0 := List.count_eq_zero.mpr hi
+    simp only [hi, if_false, ha, Nat.zero_add]
+    by_cases hb : i ∈ ids b.columns
+    · obtain ⟨c, hc, rfl⟩ := List.mem_map.mp hb
+      have hm : c.identity ∈ ids r := hcov c hc hi
+      have h1 := List.nodup_iff_count.mp hnd c.identity
+      have h2 := List.count_pos_iff.mpr hm
+      simp only [hb, if_true]
+      omega
+    · have : i ∉ ids r := fun hm => hb ((hsub.map _).subset hm)
+      simp [hb, List.count_eq_zero.mpr this]
 
 /-- **Chains.** `(a + b) + c = a + (b + c)` as schemas (name, aliases and the whole column list),
 for all operands, duplicate identities included. -/
@@ -189,8 +221,8 @@ theorem find_agrees_positional (norm : ν → ν) (k : ν) (cols : List (Col ι 
       ∧ norm k ∈ c.allNames.map norm := by
   obtain ⟨pre, post, rfl, hc, hpre⟩ := findCol_split norm k cols c h
   refine ⟨pre, post, rfl, ?_, ?_, ?_, ?_, ?_, ?_⟩
-  · simp [column, pyIndex_nonneg]
-  · simp only [column, pyIndex_neg]
+  · simp [column, pyIndex_nonneg, Out.ofIndex]
+  · simp only [column, pyIndex_neg, Out.ofIndex]
   · simp [columnNames]
   · simp [allColumnNames_append, allColumnNames, List.append_assoc]
   · rw [mem_allColumnNames]
@@ -210,7 +242,7 @@ theorem column_spec (lower : ν → ν) (cols : List (Col ι ν)) :
   refine ⟨fun k => by simp [column, find], ?_, ?_⟩
   · intro i
     rw [← pyIndex_none_iff]
-    cases hp : pyIndex cols i <;> simp [column, hp]
+    cases hp : pyIndex cols i <;> simp [column, hp, Out.ofIndex]
   · intro i h
     have hs : cols = cols.take i ++ cols[i] :: cols.drop (i + 1) := by
       simp
@@ -219,12 +251,12 @@ theorem column_spec (lower : ν → ν) (cols : List (Col ι ν)) :
     constructor
     · have := pyIndex_nonneg (cols.take i) (cols.drop (i + 1)) cols[i]
       rw [← hs, hl] at this
-      simp [column, this]
+      simp [column, this, Out.ofIndex]
     · have := pyIndex_neg (cols.take i) (cols.drop (i + 1)) cols[i]
       rw [← hs, hd] at this
       have he : (i : Int) - cols.length = -(((cols.length - (i + 1) : Nat) : Int) + 1) := by omega
       rw [he]
-      simp [column, this]
+      simp [column, this, Out.ofIndex]
 
 /-- Looking a column up by its own name returns the column at the first position bearing that
 name: itself when no earlier column has the name as name or alias. -/
@@ -234,7 +266,7 @@ theorem find_by_own_name (pre post : List (Col ι ν)) (c : Col ι ν)
     ∧ column (pre ++ c :: post) (.name c.name) = column (pre ++ c :: post) (.idx (pre.length : Int)) := by
   have hc : c.bears id c.name = true := bears_own_name c
   have h := findCol_of_split id c.name pre post c hc hpre
-  exact ⟨h, by simp [column, h, pyIndex_nonneg]⟩
+  exact ⟨h, by simp [column, h, pyIndex_nonneg, Out.ofIndex]⟩
 
 /-- **The list of all names and aliases**: per column, in column order, the aliases (if any) and
 then the name; `column_names` and iteration list the names in column order; a key is found exactly
@@ -395,11 +427,19 @@ theorem history_conserves (lower : ν → ν) (ops : List (Op ν)) (cols : List 
           | idx i =>
             simp only [step, column] at hc
             cases hi : pyIndex cols i with
-            | none => simp [hi] at hc
+            | none => simp [hi, Out.ofIndex] at hc
             | some d =>
-              simp only [hi, Out.col.injEq, Option.some.injEq] at hc
+              simp only [hi, Out.ofIndex, Out.col.injEq, Option.some.injEq] at hc
               subst hc
               exact pyIndex_mem cols i _ hi
+          | flag b =>
+            simp only [step, column] at hc
+            cases hi : pyIndex cols (boolIndex b) with
+            | none => simp [hi, Out.ofIndex] at hc
+            | some d =>
+              simp only [hi, Out.ofIndex, Out.col.injEq, Option.some.injEq] at hc
+              subst hc
+              exact pyIndex_mem cols _ _ hi
           | name k =>
             simp only [step, column, Out.col.injEq] at hc
             obtain ⟨pre, post, rfl, _⟩ := findCol_split id k cols c hc.symm
@@ -428,18 +468,111 @@ theorem program_add_keeps_registers (lower : ν → ν) (regs regs' : List (Sche
       intro r hr
       rw [← h.1, List.getElem?_append_left hr]
 
+/-- **Non-mutation as a frame property, for every interleaving.**  Run any program over any number of schemas
+(sums of registers, sums of sums, lookups and removals anywhere): what register `q` holds at the end, and every
+answer the operations addressed to `q` got, are those of running just *its own* operations on its own initial
+columns — nothing done to another schema (in particular to a sum built from `q`, or to an operand `q` was built
+from) shows through, and building sums from `q` never changes it. -/
+theorem program_frame (lower : ν → ν) (prog : List (POp ν)) (regs regs' : List (Schema ι ν))
+    (outs : List (POut ι ν)) (h : prun lower regs prog = some (regs', outs))
+    (q : Nat) (s : Schema ι ν) (hq : regs[q]? = some s) :
+    regs'[q]? = some { s with columns := (run lower s.columns (opsOn q prog)).1 }
+    ∧ outsOn q prog outs = (run lower s.columns (opsOn q prog)).2 := by
+  induction prog generalizing regs regs' outs s with
+  | nil =>
+    simp only [prun, Option.some.injEq, Prod.mk.injEq] at h
+    obtain ⟨rfl, rfl⟩ := h
+    simp [opsOn, run, hq, outsOn]
+  | cons op rest ih =>
+    simp only [prun] at h
+    cases hp : pstep lower regs op with
+    | none => simp [hp] at h
+    | some r1 =>
+      obtain ⟨regs1, o⟩ := r1
+      simp only [hp] at h
+      cases hr : prun lower regs1 rest with
+      | none => simp [hr] at h
+      | some r2 =>
+        obtain ⟨regs2, os⟩ := r2
+        simp only [hr, Option.some.injEq, Prod.mk.injEq] at h
+        obtain ⟨rfl, rfl⟩ := h
+        cases op with
+        | add i j =>
+          unfold pstep at hp
+          cases ha : regs[i]? with
+          | none => simp [ha] at hp
+          | some a =>
+            cases hb : regs[j]? with
+            | none => simp [ha, hb] at hp
+            | some b =>
+              simp only [ha, hb, Option.some.injEq, Prod.mk.injEq] at hp
+              obtain ⟨rfl, rfl⟩ := hp
+              obtain ⟨hlt, _⟩ := List.getElem?_eq_some_iff.mp hq
+              have hq1 : (regs ++ [union a b])[q]? = some s := by
+                rw [List.getElem?_append_left hlt, hq]
+              have := ih (regs ++ [union a b]) regs2 os hr s hq1
+              simpa [opsOn, outsOn] using this
+        | on r op =>
+          unfold pstep at hp
+          cases hrr : regs[r]? with
+          | none => simp [hrr] at hp
+          | some sr =>
+            simp only [hrr, Option.some.injEq, Prod.mk.injEq] at hp
+            obtain ⟨rfl, rfl⟩ := hp
+            by_cases hrq : r = q
+            · subst hrq
+              rw [hq] at hrr
+              cases hrr
+              obtain ⟨hlt, _⟩ := List.getElem?_eq_some_iff.mp hq
+              have hq1 : (regs.set r { s with columns := (step lower s.columns op).1 })[r]?
+                  = some { s with columns := (step lower s.columns op).1 } := by
+                simp [hlt]
+              have := ih _ regs2 os hr _ hq1
+              simpa [opsOn, outsOn, run] using this
+            · have hq1 : (regs.set r { sr with columns := (step lower sr.columns op).1 })[q]? = some s := by
+                rw [List.getElem?_set_ne hrq, hq]
+              have := ih _ regs2 os hr s hq1
+              simpa [opsOn, outsOn, hrq] using this
+
+/-- **"Modifies neither operand" on Python objects.**  Registers hold *references* to column-list objects
+(`Model/SchemaHeap.lean`); `pop_column` changes a list in place; `__add__` does what the source does with the left
+operand's list — `Gen.SchemaOps.addCopies` is re-read from `orso/schema.py` on every run (`self.columns[:]` /
+`list(self.columns)`).  From any state in which no two schemas share a column list, every program runs on the heap
+exactly as on the value-level machine all other theorems are about, and ends again with no shared list: so on the
+objects, too, a sum modifies neither operand, and removing from a sum (or an operand) never shows through. -/
+theorem heap_refines_values (lower : ν → ν) (prog : List (POp ν)) (st : SchemaHeap.St ι ν) (hwf : st.WF) :
+    (SchemaHeap.hrun Gen.SchemaOps.addCopies lower st prog).map (fun r => (r.1.abs, r.2)) = prun lower st.abs prog
+    ∧ ∀ st' os, SchemaHeap.hrun Gen.SchemaOps.addCopies lower st prog = some (st', os) → st'.WF := by
+  have hc : Gen.SchemaOps.addCopies = true := by decide
+  rw [hc]
+  exact SchemaHeap.heap_refines_run lower prog st hwf
+
+/-- The copy is what makes it true: were `__add__` to extend the left operand's own list, `a + b` would change
+`a` (one column before, two after) — a well-formed state, one operation, a different left operand. -/
+theorem sum_without_copy_modifies_left :
+    ∃ (st : SchemaHeap.St Nat Nat) (st' : SchemaHeap.St Nat Nat) (o : POut Nat Nat),
+      st.WF ∧ SchemaHeap.hstep false id st (.add 0 1) = some (st', o)
+      ∧ (st.abs[0]?.map (·.columns)) = some [⟨0, 10, 1, none⟩]
+      ∧ (st'.abs[0]?.map (·.columns)) = some [⟨0, 10, 1, none⟩, ⟨1, 11, 2, none⟩] := by
+  refine ⟨{ heap := [[⟨0, 10, 1, none⟩], [⟨1, 11, 2, none⟩]], regs := [⟨7, [], 0⟩, ⟨9, [], 1⟩] }, _, _, ?_, rfl, ?_, ?_⟩
+  · constructor
+    · intro s hs
+      simp only [List.mem_cons, List.not_mem_nil, or_false] at hs
+      rcases hs with rfl | rfl <;> decide
+    · decide
+  · decide
+  · decide
+
 /-! ## The source the model was written from -/
 
-/-- The comparison operators, attributes and constants the model follows, as read from
-`orso/schema.py` and `orso/tools.py` on this run: `__add__` appends a right-hand column when its
-`identity` is `not in` the seen identities, starts from a copy of the left column list and passes
-`name` and `aliases` on; `pop_column` tests `name ==`; `find_column` tests membership (`in`) of the
-lower-cased resp. exact key; `column` indexes when given an `int`; identities are 16 characters. -/
+/-- What the generated functions cannot say, as read from `orso/schema.py` and `orso/tools.py` on this run:
+`__add__` starts from a *copy* of the left column list (an object-level fact: in the model lists are values) and
+identities are 16 characters wide.  (Round 1 also pinned the spelling of the tests of `__add__`, `pop_column`,
+`find_column` and `column` — `("identity", "not in")`, `("name", "==")` … — here; those are now *semantic*
+obligations, `generated_*_eq_model` below, because a pinned spelling alarms on `if x in seen: continue`,
+`column_name == column.name`, a hoisted `.lower()` or `isinstance(i, str)` tested first, which change nothing.) -/
 theorem source_shape :
-    Gen.SchemaOps.addTest = ("identity", "not in") ∧ Gen.SchemaOps.addKeeps = ["aliases", "name"]
-    ∧ Gen.SchemaOps.addCopies = true ∧ Gen.SchemaOps.popTest = ("name", "==")
-    ∧ Gen.SchemaOps.findTests = [("lower", "in"), ("exact", "in")]
-    ∧ Gen.SchemaOps.columnIndexType = "int" ∧ Gen.SchemaOps.identityWidth = 16 := by decide
+    Gen.SchemaOps.addCopies = true ∧ Gen.SchemaOps.identityWidth = 16 := by decide
 
 /-! ## Non-vacuity -/
 
@@ -479,54 +612,129 @@ example :
     ∧ r.2 = [.col (some c0), .popped (some c0), .col (some c3), .popped (some c3), .col none,
              .col (some c1), .popped none, .strs [2, 3]] := by decide
 
+/-- The frame theorem and the heap refinement on a concrete program: two schemas sharing the column *object*
+`c1`, their sum, a removal from the sum, a removal from the left operand, lookups on all three.  The hypotheses
+(`prun … = some …`, `WF`) hold, and the three registers end as their own operations alone dictate. -/
+example :
+    let regs : List (Schema Nat Nat) := [⟨7, [8], [c0, c1]⟩, ⟨9, [], [c2, c3, c1]⟩]
+    let prog : List (POp Nat) := [.add 0 1, .on 2 (.pop 2), .on 0 (.pop 1), .on 2 (.find 1 false), .on 1 (.names), .on 0 (.names)]
+    let st : SchemaHeap.St Nat Nat := { heap := [[c0, c1], [c2, c3, c1]], regs := [⟨7, [8], 0⟩, ⟨9, [], 1⟩] }
+    (prun (· % 10) regs prog).map (fun r => r.1.map (·.columns)) = some [[c1], [c2, c3, c1], [c0, c3]]
+    ∧ opsOn 0 prog = [.pop 1, .names] ∧ opsOn 2 prog = [.pop 2, .find 1 false]
+    ∧ st.abs = regs ∧ (st.regs.map (·.ref)).Nodup ∧ (∀ s ∈ st.regs, s.ref < st.heap.length)
+    ∧ (SchemaHeap.hrun true (· % 10) st prog).map (fun r => r.1.abs) = (prun (· % 10) regs prog).map (·.1) := by decide
+
 /-! ## The source, translated: what `orso/schema.py` says now is the model
 
 `Gen.SchemaFns.*` are produced from the function bodies of the working tree on every run
-(`harness/pystmt.py`: assignments, `if`, early `return`, the two `for` shapes, comprehensions).  The
-theorems below prove each of them equal to the hand-written operation the other theorems are about, so
-those theorems are statements about the code as it is; a change of a function's meaning makes the
-corresponding equality stop checking (and the correspondence supplies the failing input). -/
+(`harness/pystmt.py`: assignments, `if`, early `return`, the `for` shapes, comprehensions, in-place changes of
+`self.columns`, the run-time type test of `column`).  The theorems below prove each of them equal to the
+hand-written operation the other theorems are about, so those theorems are statements about the code as it
+is; a change of a function's meaning makes the corresponding equality stop checking (and the correspondence
+supplies the failing input).
+
+The proofs go through *semantic* lemmas (`Lemmas/SchemaFns.lean`: the loop's step function / the search
+predicate enters with a pointwise hypothesis that `simp` discharges), tried shape by shape, so that renamed
+locals, `not x in` / `x not in`, `continue`, early return instead of `else`, a comprehension instead of a loop,
+`remove(column)` instead of `pop(idx)` … keep them checking.  (The extractor re-checks this very section
+against a changed translation before it accepts it; see `harness/extractors/c17_fns.py`.) -/
+
+-- BEGIN generated-eq (this section is also elaborated by the extractor against a trial translation)
 
 /-- `FlatColumn.all_names` -/
-theorem generated_all_names_eq_model (c : Col ι ν) : Gen.SchemaFns.all_names c = c.allNames :=
-  SchemaFnsLemmas.all_names_eq c
+theorem generated_all_names_eq_model (c : Col ι ν) : Gen.SchemaFns.all_names c = c.allNames := by
+  cases h : c.aliases <;> simp [Gen.SchemaFns.all_names, Col.allNames, h, Gen.SchemaOps.aliasesFirst]
 
 /-- `RelationSchema.find_column` (both branches) -/
 theorem generated_find_column_eq_model (lower : ν → ν) (s : Schema ι ν) (k : ν) (ci : Bool) :
     Gen.SchemaFns.find_column lower s k ci = find lower s.columns k ci := by
   unfold Gen.SchemaFns.find_column find
-  simp only [SchemaFnsLemmas.all_names_eq]
-  cases ci
-  · simp only [Bool.false_eq_true, if_false, SchemaFnsLemmas.findCol_id]
-    generalize List.find? _ s.columns = o
-    cases o <;> rfl
-  · simp only [if_true, SchemaFnsLemmas.findCol_norm]
-    generalize List.find? _ s.columns = o
-    cases o <;> rfl
+  cases ci <;>
+    simp [generated_all_names_eq_model, findCol_eq_find?, Col.bears, SchemaFnsLemmas.match_find?_id] <;>
+    grind
+
+/-- `RelationSchema.column`: an `int` (a `bool` included: `isinstance(True, int)`) indexes the column list the
+way a Python list is indexed, anything else is looked up by name, case-sensitively. -/
+theorem generated_column_eq_model (s : Schema ι ν) (key : Key ν) :
+    Gen.SchemaFns.column s key = column s.columns key := by
+  unfold Gen.SchemaFns.column column
+  cases key <;> simp [generated_find_column_eq_model, find, boolIndex] <;> grind
 
 /-- `RelationSchema.pop_column`: the removed column and the remaining column list -/
 theorem generated_pop_column_eq_model (s : Schema ι ν) (k : ν) :
     Gen.SchemaFns.pop_column s k = popCol k s.columns := by
   unfold Gen.SchemaFns.pop_column
-  have h := SchemaFnsLemmas.pop_shape k s.columns []
-  simp only [List.length_nil, List.nil_append] at h
-  exact h
+  first
+    | -- `for idx, column in enumerate(self.columns): if <named k>: return self.columns.pop(idx)`
+      (dsimp only
+       split
+       · next c i h =>
+         have hh := (SchemaFnsLemmas.pop_of_zipIdx k _ (by intro x; cases x; simp <;> grind) s.columns).1 c i h
+         simp [hh.1, hh.2]
+       · next h =>
+         have hh := (SchemaFnsLemmas.pop_of_zipIdx k _ (by intro x; cases x; simp <;> grind) s.columns).2 h
+         simp [hh])
+    | -- `for column in self.columns: if <named k>: self.columns.remove(column); return column`
+      (dsimp only
+       split
+       · next c h =>
+         have hh := (SchemaFnsLemmas.pop_of_find k _ (by intro x; simp <;> grind) s.columns).1 c h
+         simp [hh]
+       · next h =>
+         have hh := (SchemaFnsLemmas.pop_of_find k _ (by intro x; simp <;> grind) s.columns).2 h
+         simp [hh])
 
 /-- `RelationSchema.__add__` -/
 theorem generated_add_eq_model (a b : Schema ι ν) : Gen.SchemaFns.add a b = union a b := by
-  unfold Gen.SchemaFns.add union
-  have h := SchemaFnsLemmas.unionLoop_eq_foldl b.columns (ids a.columns) a.columns
-  simp only [ids] at h ⊢
-  simp only [← h]
+  unfold Gen.SchemaFns.add
+  rw [SchemaFnsLemmas.union_eq]
+  dsimp only
+  first
+    | (rw [SchemaFnsLemmas.foldl_union _ (by intro st c; cases st; simp <;> grind)]
+       simp [ids]
+       done)
+    | (rw [SchemaFnsLemmas.foldl_union_swapped _ (by intro st c; cases st; simp <;> grind)]
+       simp [ids]
+       done)
 
-/-- `column_names`, `__iter__` and `all_column_names` -/
+/-- `column_names`, `__iter__`, `all_column_names` and `num_columns` -/
 theorem generated_names_eq_model (s : Schema ι ν) :
     Gen.SchemaFns.column_names s = columnNames s.columns
     ∧ Gen.SchemaFns.iter_names s = columnNames s.columns
-    ∧ Gen.SchemaFns.all_column_names s = allColumnNames s.columns := by
-  refine ⟨rfl, rfl, ?_⟩
-  unfold Gen.SchemaFns.all_column_names
-  rw [SchemaFnsLemmas.allColumnNames_eq_flatMap]
-  simp only [SchemaFnsLemmas.all_names_eq]
+    ∧ Gen.SchemaFns.all_column_names s = allColumnNames s.columns
+    ∧ Gen.SchemaFns.num_columns s = s.columns.length := by
+  have h1 : Gen.SchemaFns.column_names s = columnNames s.columns := by
+    unfold Gen.SchemaFns.column_names columnNames
+    first
+      | rfl
+      | (dsimp only
+         rw [SchemaFnsLemmas.foldl_append_singleton (fun c : Col ι ν => c.name) _ (by intro acc x; simp)]
+         simp
+         done)
+  have h3 : Gen.SchemaFns.all_column_names s = allColumnNames s.columns := by
+    unfold Gen.SchemaFns.all_column_names
+    rw [SchemaFnsLemmas.allColumnNames_eq_flatMap]
+    try simp only [generated_all_names_eq_model]
+    first
+      | done
+      | (dsimp only
+         rw [SchemaFnsLemmas.foldl_append_list (fun c : Col ι ν => c.allNames) _ (by intro acc x; simp)]
+         simp
+         done)
+      | (simp [List.flatMap, List.flatten]
+         done)
+  refine ⟨h1, ?_, h3, ?_⟩
+  · unfold Gen.SchemaFns.iter_names
+    first
+      | exact h1
+      | rfl
+      | (unfold columnNames
+         dsimp only
+         rw [SchemaFnsLemmas.foldl_append_singleton (fun c : Col ι ν => c.name) _ (by intro acc x; simp)]
+         simp
+         done)
+  · simp [Gen.SchemaFns.num_columns, h1, columnNames]
+
+-- END generated-eq
 
 end C17
